@@ -435,7 +435,8 @@ def cap_closings(prog: Program):
         else:
             got = {ax: k for (ax, k, r, _) in conns}
             # without a rank branch the tensor must come from the expanding getter
-            src = [st.value.args[0] for st in walk_local(u.node) if isinstance(st, ast.Assign)
+            src = [expand(du, du.node_of(st.value), st.value.args[0])
+                   for st in walk_local(u.node) if isinstance(st, ast.Assign)
                    and isinstance(st.value, ast.Call) and (dotted(st.value.func) or "").endswith("Node")
                    and any(isinstance(t, ast.Name) and t.id in names for t in st.targets)]
             expanding = all(isinstance(a, ast.Call) and isinstance(a.func, ast.Attribute)
